@@ -3,5 +3,6 @@ CONSTANTS
   HostSeq <- @@HOSTSEQ@@
   Entries <- AllEntries
   MaxReqs = @@MAXREQS@@
+  Vias <- DirectOnly
   MaxScript = @@MAXSCRIPT@@
 INVARIANT Inv
